@@ -150,7 +150,7 @@ func init() {
 	fw.Register(&fw.Check{
 		ID:    "C08",
 		Level: "model_checking",
-		Rule: "explicit-state search over engine programs {put a, del a, put b, 3-entry commit, 1-entry commit, flush, bg, reopen, raw 2-entry batch, raw batch without entries} up to the depth per configuration (memtable 32 MiB / 1 B / 40 B; wal_max_size 1 B so that every reopening starts a new log file instead of continuing the newest one); after each program: storage_last_sequence sampled after every step never decreases (also across reopen) and is not behind the last stamp; the log directory read back in file order holds exactly the program's writes in issue order, every write stamped strictly higher than every earlier one, all entries of one batch stamped alike. Concurrent part: stateless exploration (deviation bound 2 quick / 3 thorough, one less for the three-thread scenario) of 4 scenarios in which two client threads write while a flush rotates the log (explicit flush caller, or memtable size 1 B); oracle on every execution: the stamp (read back from the log) of every acknowledged write is strictly greater than the stamp of every write acknowledged before it started. Retention: real engine + real replication.Primary + one in-memory replica session, 3 variants (everything acknowledged / one behind / everything acknowledged and 25 h old): writes, flush, the acknowledgement (which runs the primary's log retention), restart, one more write - the reported last sequence does not drop, the new write is stamped above the old ones and is read back. Crash recoveries are covered by C02's enumeration, which applies the same stamp rule after recovery. Non-trivial = programs with >=2 steps",
+		Rule: "explicit-state search over engine programs {put a, del a, put b, 3-entry commit, 1-entry commit, flush, bg, reopen, raw 2-entry batch, raw batch without entries} up to the depth per configuration (memtable 32 MiB / 1 B / 40 B; wal_max_size 1 B so that every reopening starts a new log file instead of continuing the newest one); after each program: storage_last_sequence sampled after every step never decreases (also across reopen) and is not behind the last stamp; the log directory read back in file order holds exactly the program's writes in issue order, every write stamped strictly higher than every earlier one, all entries of one batch stamped alike. Concurrent part: stateless exploration (deviation bound 2 quick / 3 thorough, one less for the three-thread scenario) of 4 scenarios in which two client threads write while a flush rotates the log (explicit flush caller, or memtable size 1 B), and one (one deviation less) with a replication primary attached to the log whose reported last sequence is sampled after every client write and at the end and must never decrease; oracle on every execution: the stamp (read back from the log) of every acknowledged write is strictly greater than the stamp of every write acknowledged before it started. Retention: real engine + real replication.Primary + one in-memory replica session, 3 variants (everything acknowledged / one behind / everything acknowledged and 25 h old): writes, flush, the acknowledgement (which runs the primary's log retention), restart, one more write - the reported last sequence does not drop, the new write is stamped above the old ones and is read back. Crash recoveries are covered by C02's enumeration, which applies the same stamp rule after recovery. Non-trivial = programs with >=2 steps",
 		Assumptions: []string{"the stamp of a write is read from the log, which is what replication ships"},
 		Units: func(tier string) []string {
 			var us []string
@@ -173,6 +173,9 @@ func init() {
 				bb, n := b, 8
 				if sc.Name == "rotate-vs-puts" {
 					bb, n = b-1, 16
+				}
+				if sc.Name == "flush-active-vs-put-primary" {
+					bb, n = b-1, 8 // the primary's own threads widen every interleaving
 				}
 				us = append(us, shardUnits(sc.Name, bb, n)...)
 			}
